@@ -50,6 +50,10 @@ def _ops_for(mx, ln):
             ops.append("q set %d %s" % (p, _fill(n, 0x30)))
     ops.append("q set 1 zero:2")
     ops.append("q string")
+    ops.append("q save")
+    for n in R:
+        for avail in (0, 1, 2, mx, mx + 2):
+            ops.append("q load %d %s" % (n, _fill(avail, 0x51)))
     for nd in ("61", "62", "6364", "6263", "65", "6162"):
         ops.append("q find " + nd)
     return ops
@@ -75,7 +79,7 @@ def scripts(tier, seed, scale=1):
         lines = ["q new %d %d %s" % (mx, off, gen.hexs([r.randrange(256) for _ in range(ln)]))]
         for _ in range(r.choice([6, 12, 30])):
             free = mx - cur
-            kind = r.choice(["push", "push", "unshift", "pop", "shift", "crop", "get", "set", "align", "align0", "resize", "prepare", "find", "string"])
+            kind = r.choice(["push", "push", "unshift", "pop", "shift", "crop", "get", "set", "align", "align0", "resize", "prepare", "find", "string", "load", "save"])
             if kind in ("push", "unshift"):
                 n = r.choice([0, 1, free, free + 1, r.randrange(free + 2), min(free, 1100)])
                 lines.append("q %s %s" % (kind, gen.hexs([r.randrange(256) for _ in range(n)])))
@@ -99,6 +103,11 @@ def scripts(tier, seed, scale=1):
                 lines.append("q prepare %d" % r.choice([0, 1, free, free + 1, r.randrange(2 * mx)]))
             elif kind == "find":
                 lines.append("q find " + gen.hexs([r.randrange(256) for _ in range(r.choice([1, 1, 2, 3]))]))
+            elif kind == "load":
+                lines.append("q load %d %s" % (r.choice([0, 1, free, free + 1, r.randrange(free + 2)]),
+                                                gen.hexs([r.randrange(256) for _ in range(r.choice([0, 1, free, free + 3, r.randrange(free + 4)]))])))
+            elif kind == "save":
+                lines.append("q save")
             else:
                 lines.append("q string")
             lines.append("q get 0 %d" % r.choice([cur, cur, max(0, cur - 1)]))
@@ -134,6 +143,7 @@ class _XX:
                             continue
                         ops += ["xq push " + _fill(n, 0x41), "xq unshift " + _fill(n, 0x41)]
                         ops += ["xq pop %d" % n, "xq pop %d nodst" % n, "xq shift %d" % n, "xq shift %d nodst" % n, "xq peek %d" % n]
+                    ops.append("xq elements")
                     for part in (1, 2, 3):
                         for cnt in (1, 2, 3, 5):
                             ops.append("xq write %d %s" % (part, _fill(part * cnt, 0x30)))
@@ -147,7 +157,7 @@ class _XX:
             ln = r.randrange(mx + 1)
             lines = ["xq new %d %d %s" % (mx, off, gen.hexs([r.randrange(256) for _ in range(ln)]))]
             for _ in range(r.choice([5, 10, 20])):
-                kind = r.choice(["push", "unshift", "pop", "shift", "write", "read", "peek"])
+                kind = r.choice(["push", "unshift", "pop", "shift", "write", "read", "peek", "elements"])
                 if kind in ("push", "unshift"):
                     lines.append("xq %s %s" % (kind, gen.hexs([r.randrange(256) for _ in range(r.choice([0, 1, 2, 7, 8, 9, 30]))])))
                 elif kind in ("pop", "shift"):
@@ -157,6 +167,8 @@ class _XX:
                     lines.append("xq write %d %s" % (part, gen.hexs([r.randrange(256) for _ in range(part * r.choice([1, 2, 3, 7]))])))
                 elif kind == "read":
                     lines.append("xq read %d %d" % (r.choice([1, 2, 3]), r.choice([1, 2, 4, 5])))
+                elif kind == "elements":
+                    lines.append("xq elements")
                 else:
                     lines.append("xq peek %d" % r.choice([0, 1, 3, 9]))
             out.append(("xxrnd:%d" % k, lines))
